@@ -6,6 +6,7 @@ is torn by a disk-full error (then retried), directory listings permuted.
 Oracle: an abstract store  name -> [(sha256, source basename)]  checked after
 every operation through the live instance *and* a fresh one, plus a disk-only
 walk of inputs/named_files."""
+import datetime as _dt
 import hashlib
 import json
 import os
@@ -66,7 +67,7 @@ def generate(rng, i, tier):
             opsl.append({"op": "add_torn", "name": rng.choice(NAMES), "src": rng.choice(srcs), "cut": rng.choice([0.0, 0.5, 0.5, 1.0]), "retry": rng.random() < 0.75})
         else:
             opsl.append({"op": "restart"})
-    return {"seed": rng.getrandbits(32), "listdir_salt": rng.choice([None, rng.getrandbits(16), rng.getrandbits(16)]), "ops": opsl}
+    return {"seed": rng.getrandbits(32), "listdir_salt": rng.choice([None, rng.getrandbits(16), rng.getrandbits(16)]), "ops": opsl, "clock": rng.choice(["frozen", "frozen", "tick", "jumps"])}
 
 
 def reductions(sc):
@@ -74,6 +75,8 @@ def reductions(sc):
         yield with_(sc, ops=cand)
     if sc.get("listdir_salt") is not None:
         yield with_(sc, listdir_salt=None)
+    if sc.get("clock", "frozen") != "frozen":
+        yield with_(sc, clock="frozen")
     for j, op in enumerate(sc["ops"]):
         if op["op"] == "write" and op["content"] != "c0":
             c = [dict(o) for o in sc["ops"]]
@@ -239,6 +242,17 @@ def execute(sc):
         for step, op in enumerate(sc["ops"]):
             k = op["op"]
             cls = [k]
+            # the wall clock between two operations: frozen, +1 s, or jumping (forwards by hours, backwards by a minute)
+            if sc.get("clock") == "tick":
+                seams.SimClock.advance(seconds=1)
+                out.fault("clock_forward")
+            elif sc.get("clock") == "jumps" and step:
+                if (sc["seed"] >> (step % 24)) & 1:
+                    seams.SimClock.set(seams.SimClock.peek() - _dt.timedelta(seconds=60))
+                    out.fault("clock_back")
+                else:
+                    seams.SimClock.advance(hours=5)
+                    out.fault("clock_forward")
             if k == "write":
                 data = content_bytes(op["content"])
                 registered_from = any(op["src"].split("/")[-1] == b for vs in model.values() for _, b, _ in vs)
